@@ -59,6 +59,11 @@ type Case struct {
 	// OnDelivery: the context is cancelled the moment the reply to request
 	// CancelAt is handed to the library (not on the request's arrival)
 	OnDelivery bool
+	// Series (panic-series): that many calls in a row on ONE validator / client /
+	// fetcher each meet an injected panic (recovered by the caller, as the
+	// statement allows), then the servers are healthy again and one more call
+	// must return what the sequential reference says
+	Series int
 }
 
 func (c Case) desc() string {
@@ -69,6 +74,8 @@ func (c Case) desc() string {
 		return fmt.Sprintf("%s n=%d | %s", c.Kind, c.Callers, c.Sc.Desc())
 	case "panic":
 		return fmt.Sprintf("panic at=%v together=%v | %s", c.PanicAt, c.Together, c.Sc.Desc())
+	case "panic-series":
+		return fmt.Sprintf("panic-series of %d at=%v | %s", c.Series, c.PanicAt, c.Sc.Desc())
 	}
 	return fmt.Sprintf("cancel at=%d late=%v hang=%q stall-body-of=%d on-delivery=%v | %s", c.CancelAt, c.Late, c.Hang, c.StallPos-1, c.OnDelivery, c.Sc.Desc())
 }
@@ -268,6 +275,23 @@ func Cases(quick bool, seed int64) []Case {
 				out = append(out, Case{Kind: "panic", Sc: s, PanicAt: pts, Together: true})
 				out = append(out, Case{Kind: "panic", Sc: s, PanicAt: firstPerCert(&s), Together: true})
 			}
+		}
+	}
+	// a series of recovered panics on one validator, then a healthy call
+	for _, sc := range scs[:min(len(scs), 8+repeat*4)] {
+		s := sc
+		s.Entry, s.CRLRoute = "validate", "http"
+		var pts []string
+		for _, p := range panicPoints(&s) {
+			if p != "cache-get" && p != "cache-set" {
+				pts = append(pts, p)
+			}
+		}
+		for _, p := range pts {
+			out = append(out, Case{Kind: "panic-series", Sc: s, PanicAt: []string{p}, Series: 12})
+		}
+		if len(pts) > 1 {
+			out = append(out, Case{Kind: "panic-series", Sc: s, PanicAt: pts, Series: 4 * len(pts)})
 		}
 	}
 	// cancellation at every exchange
@@ -480,6 +504,8 @@ func execCase(idx int, c Case) Record {
 		execCallersFault(&rec, c)
 	case "panic":
 		execPanic(&rec, c)
+	case "panic-series":
+		execPanicSeries(&rec, c)
 	case "cancel":
 		execCancel(&rec, c)
 	}
@@ -1070,6 +1096,78 @@ func execPanic(rec *Record, c Case) {
 	afterCall(rec, env)
 }
 
+// execPanicSeries: what one recovered panic leaves behind in the validator,
+// its client, fetcher or cache must not cost a later call anything.
+func execPanicSeries(rec *Record, c Case) {
+	sc := c.Sc
+	env := sc.Prepare()
+	met := 0
+	for k := 0; k < c.Series; k++ {
+		p := c.PanicAt[k%len(c.PanicAt)]
+		name := fmt.Sprintf("injected-panic#%d@%s", k, p)
+		var val any = name
+		switch k % 4 {
+		case 1:
+			val = errors.New(name)
+		case 2:
+			val = panicValue{name}
+		case 3:
+			val = &panicValue{name}
+		}
+		env.Replan(&sc)
+		if strings.HasPrefix(p, "read:") {
+			env.Net.Handle(strings.TrimPrefix(p, "read:"), func(*netsim.Request) netsim.Reply {
+				return netsim.Reply{Class: "panic", PanicOnRead: val, Body: []byte("never read")}
+			})
+		} else {
+			env.Net.Handle(p, func(*netsim.Request) netsim.Reply { return netsim.Reply{Class: "panic", Panic: val} })
+		}
+		before := len(env.Net.Log())
+		cr := callWithWatchdog(func() *sims.Outcome { return env.Run(context.Background()) })
+		if cr.stuck != "" {
+			stuckRecord(rec, cr.stuck)
+			rec.What = fmt.Sprintf("call %d of the series (after %d recovered panics): %s", k+1, met, rec.What)
+			return
+		}
+		out := cr.out
+		reached := false
+		for _, e := range out.Log[min(before, len(out.Log)):] {
+			if e.Kind == "deliver" && e.Class == "panic" {
+				reached = true
+			}
+		}
+		switch {
+		case reached && out.Panic == nil:
+			rec.Sig, rec.What = "panic-lost", fmt.Sprintf("call %d of the series: an injected panic was raised inside a per-certificate check but the call returned normally (err=%v)", k+1, out.Err)
+		case reached && out.Panic.Value != name:
+			rec.Sig, rec.What = "panic-value-changed", "recovered value "+trunc(out.Panic.Value, 200)+" is not the injected "+name
+		case !reached && out.Panic != nil:
+			rec.Sig, rec.What = "unexpected-panic", trunc(out.Panic.Value, 200)
+		}
+		if rec.Sig != "" {
+			return
+		}
+		if reached {
+			met++
+			rec.Exchanges++
+		}
+	}
+	// healthy again: the call after the series
+	env.Replan(&sc)
+	cr := callWithWatchdog(func() *sims.Outcome { return env.Run(context.Background()) })
+	if cr.stuck != "" {
+		stuckRecord(rec, cr.stuck)
+		rec.What = fmt.Sprintf("the healthy call after %d recovered panics on the same validator: %s", met, rec.What)
+		return
+	}
+	if d := compareWithReference(&sc, cr.out); d != "" {
+		rec.Sig, rec.What = "result-after-recovered-panics", fmt.Sprintf("after %d recovered panics on the same validator, with every server healthy again: %s", met, d)
+		return
+	}
+	rec.Canon = fmt.Sprintf("%d panics recovered, then %s", met, sims.CanonString(sims.Canon(cr.out.Results)))
+	afterCall(rec, env)
+}
+
 func execCancel(rec *Record, c Case) {
 	sc := c.Sc
 	env := sc.Prepare()
@@ -1265,6 +1363,7 @@ func run(r *core.Run) int {
 		core.Require{Counter: "perm", Why: "no forced-schedule execution"},
 		core.Require{Counter: "callers", Why: "no concurrent-caller execution"},
 		core.Require{Counter: "panic-reached", Why: "no injected panic was ever reached"},
+		core.Require{Counter: "panic-series-of-8-or-more-then-healthy", Why: "no series of eight or more recovered panics on one validator was followed by a healthy call"},
 		core.Require{Counter: "cancel", Why: "no cancellation execution"},
 		core.Require{Counter: "race-detector-on", Why: "the race detector was not active"})
 }
@@ -1310,6 +1409,9 @@ func scan(r *core.Run, cases []Case, path string, orders map[string]bool) (last 
 			}
 			if kind == "panic" && strings.HasPrefix(rec.Canon, "recovered") {
 				r.Count("panic-reached", 1)
+			}
+			if kind == "panic-series" && rec.Exchanges >= 8 {
+				r.Count("panic-series-of-8-or-more-then-healthy", 1)
 			}
 			if rec.Inconcl != "" {
 				r.Inconclusive(rec.Inconcl + " :: " + trunc(rec.Desc, 200))
